@@ -31,6 +31,12 @@ class TableCacheWorld:
         for _ in range(N_GENERATED):
             it = workload.pick_item(rng, 0.0)
             self.W.append({"ddl": it["ddl"], "flags": it["flags"], "run": workload.pick_run_kwargs(rng, core.OUTPUT_MODES[:9], {})})
+        # constructor-flag probes: simple scripts under every documented constructor flag
+        self.flag_probes = []
+        for fl in ({"debug": True}, {"log_level": 10}, {"silent": False}, {"normalize_names": True}):
+            self.flag_probes.append(len(self.W))
+            self.W.append({"ddl": "create table flagged (a int not null, \"b\" varchar(10) default 'x');\nCREATE TABLE broken (a int) PRIMARY;\n",
+                           "flags": dict(fl), "run": {}})
         self.small = [i for i, w in enumerate(self.W) if len(w["ddl"]) <= 4000]
         # the valid state: what the library's own regeneration leaves behind (scratch master was warmed up)
         self.valid_file = os.path.join(self.states_dir, "valid.py")
@@ -167,7 +173,7 @@ class TableCacheWorld:
         job = {"items": [self.W[i] for i in idxs], "write_fault": write_fault, "want_outcomes": want or [],
                "force_optimize": force_optimize, "crash_at": crash_at, "subclass": subclass,
                "reference_table": None if (force_optimize or crash_at) else self.valid_file,
-               "overlaps": [[self.W[i] for i in self.overlap_groups[g]] for g in overlaps], "sequential": sequential, "entry": entry}
+               "overlaps": [[self.W[i] for i in self.overlap_groups[g]] for g in overlaps], "sequential": sequential, "entry": "cli" if entry in ("cli", "cli_dir") else entry, "cli_dir": entry == "cli_dir"}
         r = subprocess.run([core.PY] + list(pyflags) + [os.path.join(core.HERE, "incarnation.py"), self.tree], input=json.dumps(job),
                            stdout=subprocess.PIPE, stderr=subprocess.DEVNULL, text=True, timeout=900,
                            env=core.worker_env(hashseed), cwd=self.workroot)
@@ -423,6 +429,8 @@ class TableCacheWorld:
         for st in ["valid", "missing", "stale_foreign", "old_version"]:
             # the process is the command-line tool (first contact with the library = importing the CLI module)
             cells.append((st, False, 2, ("cli",)))
+        for st in ["missing", "stale_foreign"]:
+            cells.append((st, False, 2, ("cli_dir",)))
         for st in ["valid", "missing", "stale_foreign"]:
             # leftovers of an older release next to the cache (foreign lextab.py, parser.out)
             cells.append((st, False, 3, ("artefacts",)))
@@ -437,10 +445,12 @@ class TableCacheWorld:
             idxs = [i for i in range(len(self.W)) if i % nchunks == c]
             if wf:
                 idxs = [i for i in idxs if i in set(self.small)][::6]     # every constructor regenerates (0.5 s each)
-            if pyflags and pyflags[0] == "cli":
-                plain = [i for i in idxs if i in set(self.small) and not self.W[i]["flags"] and set(self.W[i]["run"]) <= {"output_mode"}][:14]
+                idxs = sorted(set(idxs) | set(self.flag_probes))
+            if pyflags and pyflags[0] in ("cli", "cli_dir"):
+                plain = [i for i in idxs if i in set(self.small) and not self.W[i]["flags"] and set(self.W[i]["run"]) <= ({"output_mode"} if pyflags[0] == "cli" else set())]
+                plain = plain[:14] if pyflags[0] == "cli" else plain[:40]
                 trace = {"world": "tablecache", "prop": "C20", "seed": 0, "swarm": {"sweep": [st, wf, c, list(pyflags)]},
-                         "incarnations": [{"state": st, "write_fault": False, "hashseed": 0, "items": plain, "entry": "cli", "sequential": True}]}
+                         "incarnations": [{"state": st, "write_fault": False, "hashseed": 0, "items": plain, "entry": pyflags[0], "sequential": True}]}
             elif pyflags and pyflags[0] == "artefacts":
                 trace = {"world": "tablecache", "prop": "C20", "seed": 0, "swarm": {"sweep": [st, wf, c, list(pyflags)]},
                          "incarnations": [{"state": st, "write_fault": False, "hashseed": 0, "items": idxs, "artefacts": True, "sequential": True}]}
